@@ -18,7 +18,7 @@ from vlib import common
 from props import atp_common as A
 
 SPECS = ["ATPMC", "ATPTrace"]
-PKGS = ["./cmd/atp"]
+PKGS = ["./cmd/atp", "./cmd/yieldgen"]
 
 INVS = ["TypeOK", "NoStuck", "ReturnsOnce", "Quiescent", "NoNilWake", "FlagHonest"]
 
@@ -245,6 +245,46 @@ def run(ctx):
         else:
             ctx.evaluations += 1
         sessions.setdefault(cfg_key(sc["runs"]), []).append((sc["id"], out["events"]))
+    # ---------------------------------------------------------------- 3b. statement-level yield points
+    # every statement of atp/client.go and atp/server.go of the tree under test becomes a hold point (build
+    # overlay generated now from the current sources), so that a new statement or a moved unlock is explored too
+    try:
+        ybin, npoints = A.yield_binary(ctx)
+    except common.Infra as e:
+        ybin, npoints = None, 0
+        ctx.extra["yield_points"] = "overlay build failed, fell back to the committed hooks: %s" % str(e)[:300]
+    if ybin:
+        import random
+        rng = random.Random(ctx.seed * 101 + 3)
+        ybase = [dict(s, id="yfree/" + s["id"][5:]) for s in scen[:5 if thorough else 3]]
+        yres = A.run_driver(ctx, ybase, binary=ybin, label="c06y")
+        ydelay = []
+        for sc, rr in zip(ybase, yres):
+            out = judge_session(ctx, sc, rr, what="free run (yield overlay)")
+            if out is None:
+                continue
+            seen = {}
+            for key in out.get("gates", []):
+                seen[key] = seen.get(key, 0) + 1
+                if key.startswith("y:"):
+                    ydelay.append(dict(id="ydelay/%s/%s#%d" % (sc["id"][6:], key, seen[key]), mode="delay", cap=0, runs=sc["runs"],
+                                       workload=sc["workload"], delay_key=key, delay_nth=seen[key]))
+        rng.shuffle(ydelay)
+        ydelay = ydelay[: (2500 if thorough else 150)]
+        yhit = 0
+        for sc, rr in zip(ydelay, A.run_driver(ctx, ydelay, binary=ybin, label="c06yd")):
+            out = judge_session(ctx, sc, rr, what="delay " + sc["delay_key"])
+            if out is None:
+                continue
+            if out.get("delay_hit"):
+                yhit += 1
+                ctx.count(sc["id"])
+            else:
+                ctx.evaluations += 1
+            sessions.setdefault(cfg_key(sc["runs"]), []).append((sc["id"], out["events"]))
+        ctx.extra["yield_points"] = npoints
+        ctx.extra["yield_delay_scenarios"] = len(ydelay)
+        ctx.extra["yield_gate_held"] = yhit
     ctx.extra["delay_scenarios"] = len(delay)
     ctx.extra["delay_gate_held"] = hit
     ctx.sample(dict(kind="delay scenario", id=delay[0]["id"] if delay else None))
